@@ -177,6 +177,24 @@ func (r *Run) Get(key string) int64 {
 	return r.counts[key]
 }
 
+// Evals returns the number of evaluations so far
+func (r *Run) Evals() int64 {
+	r.mu.Lock()
+	defer r.mu.Unlock()
+	return r.evals
+}
+
+// Counts returns a copy of all counters
+func (r *Run) Counts() map[string]int64 {
+	r.mu.Lock()
+	defer r.mu.Unlock()
+	out := make(map[string]int64, len(r.counts))
+	for k, v := range r.counts {
+		out[k] = v
+	}
+	return out
+}
+
 // Distinct records one distinct non-trivial case key (hashed if long)
 func (r *Run) Distinct(key string) {
 	if len(key) > 40 {
